@@ -81,8 +81,15 @@ type seqState struct {
 	upContent map[string]string
 
 	// Reference model.
-	links    int
-	desc     [4]int // open descriptors per share mask (1=r, 2=w, 3=rw)
+	links int
+	// FUSE configurations: open descriptors per share mask (1=r, 2=w,
+	// 3=rw); a descriptor is closed with the mask it was opened with.
+	// NFS configurations: share reservations held per share BIT (desc[1]
+	// read bits, desc[2] write bits, desc[3] unused). The NFSv4 server
+	// closes any subset of the bits it holds (OPEN_DOWNGRADE), upgrades
+	// by a second VirtualOpenSelf with the missing bits, and closes bits
+	// acquired by separate opens with one merged VirtualClose.
+	desc     [4]int
 	frozen   []filesystem.FileReader
 	content  []byte
 	exec     bool
@@ -111,10 +118,39 @@ func newSeqState(c *mc.SeqCtx, cfg seqCfg) *seqState {
 		s.leaf = newLeaf(s.pool, s.log, cfg.nfs, cfg.initShare)
 	}
 	s.links = 1
-	if cfg.initShare != 0 {
-		s.desc[cfg.initShare] = 1
-	}
+	s.acquire(cfg.initShare, 1)
 	return s
+}
+
+// acquire adds (n=1) or removes (n=-1) the share reservations of mask.
+func (s *seqState) acquire(mask virtual.ShareMask, n int) {
+	if mask == 0 {
+		return
+	}
+	if !s.cfg.nfs {
+		s.desc[mask] += n
+		return
+	}
+	for bit := virtual.ShareMask(1); bit <= 2; bit <<= 1 {
+		if mask&bit != 0 {
+			s.desc[bit] += n
+		}
+	}
+}
+
+// canClose tells whether the descriptor protocol permits VirtualClose(mask):
+// FUSE releases a descriptor with the mask it was opened with; NFSv4 closes
+// any combination of share bits it currently holds.
+func (s *seqState) canClose(mask virtual.ShareMask) bool {
+	if !s.cfg.nfs {
+		return s.desc[mask] > 0
+	}
+	for bit := virtual.ShareMask(1); bit <= 2; bit <<= 1 {
+		if mask&bit != 0 && s.desc[bit] == 0 {
+			return false
+		}
+	}
+	return true
 }
 
 // settle is the lifetime oracle, evaluated after every operation: the pool
@@ -175,7 +211,7 @@ func (s *seqState) opOpen(mask virtual.ShareMask, trunc, truncError bool) {
 		s.settle("open-truncate-error")
 		return
 	}
-	s.desc[mask]++
+	s.acquire(mask, 1)
 	if trunc && !delivered {
 		s.content = nil
 	}
@@ -187,7 +223,7 @@ func (s *seqState) opOpen(mask virtual.ShareMask, trunc, truncError bool) {
 
 func (s *seqState) opClose(mask virtual.ShareMask) {
 	s.leaf.VirtualClose(mask)
-	s.desc[mask]--
+	s.acquire(mask, -1)
 	s.settle("close")
 }
 
@@ -346,6 +382,18 @@ func (s *seqState) opChmod() {
 
 // uploadFile is virtualBuildDirectory.UploadFile minus the directory lookup.
 func uploadFile(leaf virtual.LinkableLeaf, cas *fakeCAS, fn digest.Function, delay <-chan struct{}) (digest.Digest, error) {
+	return uploadFileCtx(ctx, leaf, cas, fn, delay)
+}
+
+// cancelledContext is a context that is done before the call starts (the
+// client went away, the action timed out).
+var cancelledContext = func() context.Context {
+	c, cancel := context.WithCancel(context.Background())
+	cancel()
+	return c
+}()
+
+func uploadFileCtx(ctx context.Context, leaf virtual.LinkableLeaf, cas *fakeCAS, fn digest.Function, delay <-chan struct{}) (digest.Digest, error) {
 	p := virtual.ApplyUploadFile{
 		Context:                   ctx,
 		ContentAddressableStorage: cas,
@@ -382,22 +430,42 @@ func checkUpload(fail failFn, fn digest.Function, reported digest.Digest, puts [
 // opUpload uploads the file; with readError the pool file fails the first
 // read the upload needs (if it needs one), so that the upload has to fail and
 // must give back its frozen descriptor on the error path.
-func (s *seqState) opUpload(fn digest.Function, readError bool) {
+//
+// With cancelled the upload is issued on a context that is already done: the
+// upload may fail (the fake CAS refuses a Put on a done context, like a gRPC
+// client would), but "in-progress upload" ends when the call returns: a failed
+// upload keeps neither a reference nor the file frozen.
+func (s *seqState) opUpload(fn digest.Function, readError, cancelled bool) {
 	before := s.cas.count()
 	pf := s.pf()
 	failuresBefore := pf.readFailures
 	if readError && !s.released {
 		pf.failReads = 1
 	}
-	d, err := uploadVia(s.bd, s.leaf, s.cas, fn, closedChannel)
+	c := ctx
+	if cancelled {
+		c = cancelledContext
+	}
+	d, err := uploadViaCtx(c, s.bd, s.leaf, s.cas, fn, closedChannel)
 	pf.failReads = 0
 	puts := s.cas.putsSince(before, "")
+	if cancelled && err != nil && !s.released {
+		for _, p := range puts {
+			if !p.failed {
+				s.fail("cancelled-upload-stored", "UploadFile on a cancelled context failed (%v) although the CAS accepted the contents", err)
+			}
+		}
+		s.noUploadLeftovers("upload-cancelled")
+		s.settle("upload-cancelled")
+		return
+	}
 	if pf.readFailures > failuresBefore {
 		// The storage failed underneath the upload: it cannot have
 		// succeeded, and it must not keep a reference.
 		if err == nil {
 			s.fail("upload-succeeded-despite-read-error", "UploadFile reported %s although the pool file failed to deliver the contents", d)
 		}
+		s.noUploadLeftovers("upload-read-error")
 		s.settle("upload-read-error")
 		return
 	}
@@ -426,6 +494,16 @@ func (s *seqState) opUpload(fn digest.Function, readError bool) {
 		s.fail("upload-content-mismatch", "the CAS received %q, the file contains %q", data, s.content)
 	}
 	s.settle("upload")
+}
+
+// noUploadLeftovers: an upload that has returned is no longer in progress, so
+// the file is frozen only by the frozen readers the model knows about (a
+// leaked frozen descriptor blocks every later writer forever). The same is
+// established without the dump hook by the destructive final oracle.
+func (s *seqState) noUploadLeftovers(op string) {
+	if d, _ := virtual.VerifFilesDump(s.leaf); int(d.FrozenDescriptorsCount) != len(s.frozen) {
+		s.fail("frozen-count-leak/"+op, "%s has returned and %d frozen reader(s) are open, yet the file counts %d frozen descriptors: later writers block forever", op, len(s.frozen), d.FrozenDescriptorsCount)
+	}
 }
 
 // statDigest runs ApplyGetBazelOutputServiceStat and extracts the digest from
@@ -550,8 +628,10 @@ func (s *seqState) check() {
 // drop every remaining reference and verify that the storage is released at
 // the very last step, exactly once, and that late calls fail cleanly.
 func (s *seqState) final() {
-	for mask := virtual.ShareMask(1); mask <= 3; mask++ {
-		for s.desc[mask] > 0 && !s.c.Failed() {
+	// NFS: bits acquired by separate opens are first given back by merged
+	// closes (r|w), the remainder bit by bit.
+	for _, mask := range []virtual.ShareMask{3, 1, 2} {
+		for s.canClose(mask) && !s.c.Failed() {
 			s.opClose(mask)
 		}
 	}
@@ -575,7 +655,7 @@ func (s *seqState) final() {
 	s.opLink()
 	s.opOpen(virtual.ShareMaskRead, false, false)
 	s.opOpen(virtual.ShareMaskWrite, true, false)
-	s.opUpload(sha256Fn, false)
+	s.opUpload(sha256Fn, false, false)
 	s.opFrozenOpen()
 	s.opStat(false)
 	s.check()
@@ -652,7 +732,7 @@ func seqOps() []mc.SeqOp {
 	ops = append(ops, seqOp("open w+trunc (pool truncate error)", canMutate, func(s *seqState) { s.opOpen(virtual.ShareMaskWrite, true, true) }))
 	for mask := virtual.ShareMask(1); mask <= 3; mask++ {
 		mask := mask
-		ops = append(ops, seqOp("close "+maskNames[mask], func(s *seqState) bool { return s.desc[mask] > 0 }, func(s *seqState) { s.opClose(mask) }))
+		ops = append(ops, seqOp("close "+maskNames[mask], func(s *seqState) bool { return s.canClose(mask) }, func(s *seqState) { s.opClose(mask) }))
 	}
 	ops = append(ops,
 		seqOp("link", nil, (*seqState).opLink),
@@ -671,9 +751,10 @@ func seqOps() []mc.SeqOp {
 		seqOp("allocate [2,5) (pool truncate error)", canWrite, func(s *seqState) { s.opAllocate(true) }),
 		seqOp("read (pool read error)", live, (*seqState).opReadError),
 		seqOp("chmod", live, (*seqState).opChmod),
-		seqOp("upload sha256", nil, func(s *seqState) { s.opUpload(sha256Fn, false) }),
-		seqOp("upload md5", nil, func(s *seqState) { s.opUpload(md5Fn, false) }),
-		seqOp("upload sha256 (pool read error)", live, func(s *seqState) { s.opUpload(sha256Fn, true) }),
+		seqOp("upload sha256", nil, func(s *seqState) { s.opUpload(sha256Fn, false, false) }),
+		seqOp("upload md5", nil, func(s *seqState) { s.opUpload(md5Fn, false, false) }),
+		seqOp("upload sha256 (pool read error)", live, func(s *seqState) { s.opUpload(sha256Fn, true, false) }),
+		seqOp("upload sha256 (cancelled context)", live, func(s *seqState) { s.opUpload(sha256Fn, false, true) }),
 		seqOp("stat", nil, func(s *seqState) { s.opStat(false) }),
 		seqOp("stat (pool read error)", live, func(s *seqState) { s.opStat(true) }),
 		seqOp("frozen-open", nil, (*seqState).opFrozenOpen),
@@ -689,6 +770,7 @@ func seqs() []*mc.Seq {
 		{name: "seq-fuse-created-rw", initShare: virtual.ShareMaskRead | virtual.ShareMaskWrite},
 		{name: "seq-nfs", nfs: true},
 		{name: "seq-nfs-created-w", nfs: true, initShare: virtual.ShareMaskWrite},
+		{name: "seq-nfs-created-rw", nfs: true, initShare: virtual.ShareMaskRead | virtual.ShareMaskWrite},
 	} {
 		cfg := cfg
 		depth := map[string]int{"quick": 5, "thorough": 8}
